@@ -185,6 +185,8 @@ type gen struct {
 	labels    map[string]bool
 	n         int
 	arityDecl *zn.FuncDef // declaration of the method called with a wrong argument count
+	lineKey   zn.Stmt     // the reported line of the planted fault is the line of THIS node (a later line of the statement)
+	extraTail zn.Stmt     // one more frame below the planted statement: the callee's, at the line of this statement
 }
 
 func (g *gen) pick(n int, w string) int { return rapid.IntRange(0, n-1).Draw(g.t, w) }
@@ -247,7 +249,24 @@ func (g *gen) faultStmt() ([]zn.Stmt, zn.Stmt, string) {
 	div := func(den zn.Expr) zn.Expr {
 		return &zn.Bin{Op: ">", L: &zn.Bin{Op: "/", L: num(10), R: &zn.Grp{E: den}}, R: num(0)}
 	}
-	switch g.pick(18, "fault") {
+	switch g.pick(20, "fault") {
+	case 19:
+		// the condition of a later 再如 branch fails: reported at the line of THAT branch
+		g.labels["fault-in-else-if-condition"] = true
+		ifs := &zn.If{Conds: []zn.Expr{&zn.BoolLit{V: false}, &zn.Bin{Op: ">", L: num(1), R: num(2)}, div(num(0))},
+			Blocks: [][]zn.Stmt{{show(&zn.Str{V: "到不了"})}, {show(&zn.Str{V: "到不了"})}, {show(&zn.Str{V: "到不了"})}}}
+		g.lineKey = &ifs.Conds[2]
+		return nil, ifs, "division by zero in the condition of the second 再如 branch"
+	case 18:
+		// a fault inside a handler, after the handled fault: reported at the handler's line; the
+		// handled fault's line is history
+		g.labels["fault-inside-handler"] = true
+		fn := fmt.Sprintf("内拦%d", g.n)
+		bad := &zn.Let{Names: []string{"坏二"}, E: &zn.Index{Root: &zn.ListLit{Items: []zn.Expr{num(1)}}, Idx: num(5)}}
+		g.extraTail = bad
+		decl := &zn.FuncDef{Name: fn, Params: []string{"参"}, Body: []zn.Stmt{show(&zn.Str{V: "先"}), &zn.Let{Names: []string{"坏一"}, E: &zn.Bin{Op: "/", L: num(1), R: num(0)}}},
+			Catches: []zn.Catch{{Class: "异常", Body: []zn.Stmt{show(&zn.Str{V: "处理中"}), bad}}}}
+		return []zn.Stmt{decl}, show(&zn.Call{Name: fn, Args: []zn.Expr{num(1)}}), "index error inside the handler of a method (after a handled division by zero)"
 	case 17:
 		// the statement spans lines (a text with line breaks comes first): it is reported at
 		// its first line, whose text ends inside the literal
@@ -442,13 +461,13 @@ func TestDeclarationFaults(t *testing.T) {
 		if rapid.Bool().Draw(t, "classfault") {
 			cd := &zn.ClassDef{Name: "坏类", Props: []zn.Prop{{Name: "好", Init: num(1)}, {Name: "坏", Init: &zn.Bin{Op: "/", L: num(1), R: num(0)}}}}
 			last.prog.Body = append(last.prog.Body, cd)
-			active[nmods] = cd
+			active[nmods] = &cd.Props[1] // the line of the property itself, not of the 定义
 			fault = "division by zero in a property initialiser"
 			g.labels["fault-in-property-initialiser"] = true
 		} else {
 			pre, act, f := g.faultStmt()
-			if g.arityDecl != nil {
-				g.arityDecl = nil // (its tolerant tail needs the call-chain bookkeeping of TestRuntimeFaults)
+			if g.arityDecl != nil || g.extraTail != nil {
+				g.arityDecl, g.extraTail = nil, nil // (their tails need the call-chain bookkeeping of TestRuntimeFaults)
 				pre, act, f = nil, &zn.Let{Names: []string{"坏"}, E: &zn.Bin{Op: "/", L: num(1), R: num(0)}}, "division by zero"
 			}
 			last.prog.Body = append(append(last.prog.Body, pre...), g.wrap(act))
@@ -466,6 +485,9 @@ func TestDeclarationFaults(t *testing.T) {
 			if i < nmods {
 				imps := units[i].prog.Imports
 				st = &imps[len(imps)-1]
+			}
+			if i == nmods && g.lineKey != nil {
+				st = g.lineKey
 			}
 			lt, ok := lineOf[st]
 			if !ok {
@@ -602,7 +624,14 @@ func TestRuntimeFaults(t *testing.T) {
 		}
 		for i := 0; i <= depth; i++ {
 			lt := lineOf[active[i]]
+			if i == depth && g.lineKey != nil {
+				lt = lineOf[g.lineKey]
+			}
 			c.Chain = append(c.Chain, frame{Module: home[i].name, Line: lt[0].(int) + 1, Text: lt[1].(string)})
+		}
+		if g.extraTail != nil {
+			lt := lineOf[g.extraTail]
+			c.Chain = append(c.Chain, frame{Module: home[depth].name, Line: lt[0].(int) + 1, Text: lt[1].(string)})
 		}
 		var labels []string
 		for l := range g.labels {
